@@ -10,10 +10,10 @@ mode 'c02': the structured fragment of C02/C03 (no break/continue; raising calls
             construct).
 """
 
-HEADER = 'from vf_rt import v, q, it, cm, m, d, dd, kb, km, call, ex\n'
+HEADER = 'from vf_rt import v, q, it, cm, m, d, dd, kb, km, call, ex, et\n'
 
 PROJECT_FILES = {
-    'vf_rt.py': 'from vf.dynrt import v, q, it, cm, m, d, dd, kb, km, call, ex\n',
+    'vf_rt.py': 'from vf.dynrt import v, q, it, cm, m, d, dd, kb, km, call, ex, et\n',
     'pkg/__init__.py': 'from vf_rt import v\npa = v()\ndef pf():\n    return v()\n',
     'pkg/mod.py': 'from vf_rt import v\nma = v()\nmb = v()\ndef mf():\n    return v()\nclass MK:\n    pass\n_hidden = v()\n',
     'pkg/star.py': 'from vf_rt import v as _v\nsa = _v()\nsb = _v()\ndef sf():\n    return _v()\n',
@@ -124,6 +124,7 @@ class Gen(object):
         rng.shuffle(self.stdlib_left)
         self.features = set()
         self.force = None
+        self.global_binders = {}   # function name -> module-level names it binds under a global declaration
         self.risky_left = 10 ** 6 if self.c01 else risky
         self.risky_p = 0.15 if self.c01 else 0.12
 
@@ -216,6 +217,13 @@ class Gen(object):
         if r < 0.9:
             n = self.pick_var(scope)
             e = self.expr(scope, avoid=(n,))
+            if self.rng.random() < 0.3 and self.dec_ok():
+                # a comprehension earlier in the same test (it opens regions of its own), then the walrus
+                self.decisions += 1
+                pre = 'q([v(%s, ci) for ci in it()], (%s := %s))' % (self.readable(scope, (n,)), n, e)
+                scope.add(n, definite)
+                self.features.add('walrus_after_comprehension_in_test')
+                return pre
             scope.add(n, definite)
             self.features.add('walrus_in_test')
             return '(%s := %s)' % (n, e)
@@ -340,7 +348,12 @@ class Gen(object):
         two = rng.random() < 0.25 and self.dec_ok()
         it1 = 'it(%s)' % (self.readable(scope, avoid) if rng.random() < 0.6 else '')
         gens = 'for %s in %s' % (cv, it1)
-        if rng.random() < 0.4 and self.dec_ok():
+        if self.c01 and rng.random() < 0.15:
+            wn = rng.choice([n for n in VARS if n != tgt] or VARS)
+            gens += ' if (%s := v(%s))' % (wn, self.readable(inner, avoid))
+            inner.add(wn)                       # bound (in the enclosing scope) before the element is evaluated
+            self.features.add('walrus_in_comp_condition')
+        elif rng.random() < 0.4 and self.dec_ok():
             self.decisions += 1
             gens += ' if q(%s)' % self.readable(inner, avoid)
         if two:
@@ -487,9 +500,19 @@ class Gen(object):
         d_body = self.branch(scope, body)
         form = rng.choice(['each', 'tuple', 'broad'])
         handlers = []
+
+        def etype(e):
+            # the type expression of a handler is evaluated when an exception arrives: it may read names, also ones
+            # bound in the try body (c01 mode; they may be unbound when the exception comes from the first statement)
+            if rng.random() < 0.25:
+                tscope = Scope('handler-type', scope)
+                tscope.definite = set(pre) if not self.c01 else set(d_body)
+                self.features.add('handler_type_reads_name')
+                return 'et(%s, %s)' % (self.readable(tscope), e)
+            return e
         if form == 'each' or len(excs) == 1:
             for e in excs:
-                handlers.append('except %s' % e)
+                handlers.append('except %s' % etype(e))
         elif form == 'tuple':
             handlers.append('except (%s)' % ', '.join(excs))
         else:
@@ -662,6 +685,9 @@ class Gen(object):
                 self.emit(ind + 1, 'global %s' % g)
                 fs.declared.add(g)
                 self.features.add('global')
+                if rng.random() < 0.6:
+                    self.emit(ind + 1, '%s = %s' % (g, self.expr(fs)))
+                    fs.add(g)
         elif r < 0.3 and scope.enclosing_function() is not None:
             outer = scope.enclosing_function()
             cands = [n for n in outer.names if n not in pnames and n not in outer.declared]
@@ -671,9 +697,22 @@ class Gen(object):
                 fs.declared.add(g)
                 self.features.add('nonlocal')
         self.block(ind + 1, fs, depth + 1, False)
+        gb = [n for n in fs.names if n in fs.declared]
+        call_after = None
+        if gb and scope.kind == 'module':
+            self.global_binders[name] = gb
+            if rng.random() < 0.5 and self.dec_ok():
+                call_after = gb[0]
         if rng.random() < 0.6 and not self.lines[-1].strip().startswith(('return', 'raise')):
             self.emit(ind + 1, 'return %s' % self.expr(fs))
         scope.add(name)
+        if call_after:
+            # the function binds a module-level name through its global declaration: call it, then read the name
+            self.decisions += 1
+            self.emit(ind, 'call(%s)' % name)
+            scope.add(call_after, definite=False)
+            self.emit(ind, 'v(%s)' % call_after)
+            self.features.add('global_bound_by_call')
 
     def s_lambda(self, ind, scope, depth, in_loop):
         rng = self.rng
@@ -763,6 +802,13 @@ class Gen(object):
             return self.s_use(ind, scope, depth, in_loop)
         self.decisions += 1
         f = self.rng.choice(vis)
+        for g in self.global_binders.get(f, ()):
+            # the call may bind module-level names through 'global' declarations of the function
+            top = scope
+            while top.parent is not None:
+                top = top.parent
+            top.add(g, definite=False)
+            self.features.add('global_bound_by_call')
         if self.rng.random() < 0.5:
             n = self.pick_var(scope)
             self.emit(ind, '%s = call(%s)' % (n, f))
